@@ -46,6 +46,19 @@ pub fn frame(v: &Value) -> Vec<u8> {
     out
 }
 
+/// a frame with an additional Content-Type header, before or after Content-Length (LSP allows it)
+pub fn frame_with_content_type(v: &Value, before: bool) -> Vec<u8> {
+    let body = serde_json::to_vec(v).unwrap();
+    let ct = "Content-Type: application/vscode-jsonrpc; charset=utf-8\r\n";
+    let mut out = if before {
+        format!("{}Content-Length: {}\r\n\r\n", ct, body.len()).into_bytes()
+    } else {
+        format!("Content-Length: {}\r\n{}\r\n", body.len(), ct).into_bytes()
+    };
+    out.extend(body);
+    out
+}
+
 pub fn request(id: i64, method: &str, params: Value) -> Value {
     json!({ "jsonrpc": "2.0", "id": id, "method": method, "params": params })
 }
